@@ -6,6 +6,7 @@ crate's configs is (a) recomputed from first principles and (b) compared with th
 constant of ark_bls12_377, both const-evaluated by the same driver.  Method overrides are compared
 through a table with reasons.
 """
+import re
 from . import consts as K
 from .consts import P, Q, felt, bigint, vint, Fp2, PrimeF
 
@@ -199,6 +200,27 @@ def run(rep, facts, tier):
     c02.from_bigint_rule(rep, Cfg(f))
     rep.analysed["constants_compared"] = n
     rep.floor("constants_compared", n, 21)
+    # the engine is instantiated over the crate's own Fp: the field-layer rules of C10 (operators reach the right primitive on their own
+    # operands, identities, exponentiation, inversion, selection) and of C11 (reduction, ordering, flags, limb/byte layout, serialisation)
+    # restricted to Fp are necessary conditions of "byte-identical to the reference" (the y-sign flag of compressed points is Fp's Ord).
+    from . import c10, c11
+    from .common import Report
+    nfp = 0
+    for mod, tag in ((c10, "C10"), (c11, "C11")):
+        sub = Report(rep.pid, tier)
+        mod.run(sub, {"A": f}, tier)
+        viol = {k: (m, w) for k, m, w in sub.violations}
+        for k, ok, nt in sub.obligations:
+            if not re.search(r"(^|[/:<& ])fp(::|/|$)|fields::fp::", k):
+                continue
+            nfp += 1
+            m, w = viol.get(k, ("holds", None))
+            rep.ob("FP/%s/%s" % (tag, k), ok, m, nontrivial=nt, where=w)
+        for u in sub.unmodelled:
+            if "fp" in u:
+                rep.unmodelled.append(u)
+    rep.rules += ["FP-LAYER (rules FWD/IDENT/EXP/INV/SELECT of C10 and RED/CONV/ORD/FLAGS/LIMBS/PRIM/STR of C11, instances on Fp)"]
+    rep.floor("fp_layer_obligations", nfp, 85)
     rep.extra["exhaustive"] = True
 
 
